@@ -132,6 +132,26 @@ pub fn run(op: &str, a: &Args) -> Option<Args> {
     // building the typed input arrays may itself panic for nested Struct layouts that carry offsets (known
     // finding F3: ArrayData::slice and StructArray::from apply the offset twice): no call, nothing to check
     let ins = match std::panic::catch_unwind(std::panic::AssertUnwindSafe(|| decode_inputs(a, 3, nin))) { Ok(Some(v)) => v, _ => return Some(skip()) };
+    // F83: ArrayData validation looks only at the null BUFFER of a non-nullable child; a Dictionary / RunEndEncoded
+    // child whose VALUES contain nulls is accepted under a non-nullable field although its logical rows are null.
+    // Kernels that materialise the logical values (row-format decode) then return a plain non-nullable child with
+    // nulls. Such inputs are logically inconsistent with their own schema: not fed to the panel.
+    fn nonnull_fields_ok(a: &dyn Array) -> bool {
+        let d = a.to_data();
+        let fields: Vec<bool> = match d.data_type() {
+            DataType::Struct(fs) => fs.iter().map(|f| f.is_nullable()).collect(),
+            DataType::List(f) | DataType::LargeList(f) | DataType::ListView(f) | DataType::LargeListView(f) | DataType::FixedSizeList(f, _) | DataType::Map(f, _) => vec![f.is_nullable()],
+            DataType::Union(fs, _) => fs.iter().map(|(_, f)| f.is_nullable()).collect(),
+            DataType::RunEndEncoded(_, v) => vec![false, v.is_nullable()],
+            DataType::Dictionary(_, _) => vec![true],
+            _ => vec![],
+        };
+        d.child_data().iter().enumerate().all(|(i, c)| {
+            let ca = make_array(c.clone());
+            (fields.get(i).copied().unwrap_or(true) || ca.logical_null_count() == 0) && nonnull_fields_ok(ca.as_ref())
+        })
+    }
+    if !ins.iter().all(|x| std::panic::catch_unwind(std::panic::AssertUnwindSafe(|| nonnull_fields_ok(x.as_ref()))).unwrap_or(false)) { return Some(skip()) }
     // C01 constrains what a safe operation RETURNS; a (safe) panic returns nothing: skipped, not a violation
     let out = std::panic::catch_unwind(std::panic::AssertUnwindSafe(|| run_kernel(k, &params, &ins)));
     match out { Ok(Some(Ok(o))) => Some(dump(o.as_ref()).unwrap_or_else(skip)), _ => Some(skip()) }
